@@ -561,6 +561,20 @@ def rule_postprocess_skips_runtime_copies(repo: Repo, rep, rule: str = "R12.6") 
                 for x in ast.walk(cnd):
                     if isinstance(x, ast.Compare) and len(x.ops) == 1 and isinstance(x.ops[0], ast.NotIn):
                         src = L.inline(x.comparators[0], stop=tuple(L.params)) if L is not None else x.comparators[0]
+                        if isinstance(src, ast.Name):
+                            # a set filled element by element (`s = set()` ... `for .. in RUNTIME_FILES: s.add(<path>)`): what is added, and from which loop
+                            parts: List[ast.AST] = []
+                            for c_ in ast.walk(scope):
+                                if isinstance(c_, ast.Call) and isinstance(c_.func, ast.Attribute) and isinstance(c_.func.value, ast.Name) and c_.func.value.id == src.id \
+                                        and c_.func.attr in ("add", "append", "update", "extend") and c_.args:
+                                    parts.append(c_.args[0])
+                                    lp_ = parent(c_)
+                                    while lp_ is not None and not isinstance(lp_, (ast.For, ast.FunctionDef, ast.AsyncFunctionDef)):
+                                        lp_ = parent(lp_)
+                                    if isinstance(lp_, ast.For):
+                                        parts.append(lp_.iter)
+                            if parts:
+                                src = ast.Tuple(elts=parts, ctx=ast.Load())
                         if "RUNTIME_FILES" in norm(src):
                             # CoreEmitter reports its destinations as join(out_dir, relpath(core_dir, out_dir), ...): for a core outside the
                             # client package those paths contain `..` and equal the plain `core_dir / name` only after resolution
@@ -589,6 +603,9 @@ def rule_postprocess_skips_runtime_copies(repo: Repo, rep, rule: str = "R12.6") 
                             hf = gen.module.functions[tgt_names[0]]
             if hf is None or hf is gen:
                 continue
+            from sa.resolve import follow_delegation as _fd126
+
+            hf = _fd126(repo, hf)  # `_without_runtime_copies` may be a thin alias of a module function
             ok = ok or filters_runtime(hf.node, _L(hf.node))
         if ok and any(lexical):
             rep.violation(rule, sub, f"{gen.fq}|runtime-filter-compares-unresolved-paths",
